@@ -58,6 +58,7 @@ fn main() {
                 "C10" => props::c10::run(tier, seed, replay.as_deref()),
                 "C11" => props::c11::run(tier, seed, replay.as_deref()),
                 "C12" => props::c12::run(tier, seed, replay.as_deref()),
+                "C14" => props::c14::run(tier, seed, replay.as_deref()),
                 "C15" => props::c15::run(tier, seed, replay.as_deref()),
                 "C20" => props::c20::run(tier, seed, replay.as_deref()),
                 _ => {
